@@ -9,7 +9,9 @@
 //!     kind  o = own wallet coin (key index 1+i, listed in `utxos`, gets signed) | f = somebody else's coin
 //!     type  TRUE script type of the spent output: w p2wpkh | t p2tr | k p2pkh | s p2sh-p2wpkh
 //!     pres  n = non_witness_utxo (previous tx) supplied | u = only witness_utxo | b = both
+//!           x = a forged previous tx (wrong txid) whose output is the claimed script
 //!     claim (script in the witness_utxo) t = the true script | w = "p2wpkh of the same key"
+//!           v = the true script with the value understated by 500_000 sat
 use super::{foreign_key, key_script, to_dp, NET};
 use crate::common::*;
 use lightning_signer::bitcoin::absolute::LockTime;
@@ -37,6 +39,8 @@ use vls_protocol::psbt::StreamedPSBT;
 use vls_protocol::serde_bolt::{Array, Octets, WithSize};
 use vls_protocol_signer::approver::{Approve, NegativeApprover, PositiveApprover};
 use vls_protocol_signer::handler::{Handler, HandlerBuilder, RootHandler};
+
+const UNDERSTATE: u64 = 500_000;
 
 struct In {
     own: bool,
@@ -89,7 +93,8 @@ impl C08Psbt {
         // the coins really spent
         let mut prev_txs = vec![];
         let mut keys = vec![];
-        let mut total: u64 = 0;
+        let mut total: u64 = 0; // as presented to the signer
+        let mut true_total: u64 = 0;
         for (i, inp) in ins.iter().enumerate() {
             let pk: PublicKey = if inp.own {
                 let x = node.get_account_extended_key().derive_priv(&secp, &to_dp(&[1 + i as u32])).unwrap();
@@ -98,7 +103,8 @@ impl C08Psbt {
                 foreign_key(4000 + i as u32)
             };
             let value = 2_000_000 + 1000 * i as u64;
-            total += value;
+            total += if inp.claim == 'v' && inp.pres != 'n' { value - UNDERSTATE } else { value };
+            true_total += value;
             let ptx = Transaction {
                 version: Version::TWO,
                 lock_time: LockTime::ZERO,
@@ -142,6 +148,7 @@ impl C08Psbt {
             })
             .unwrap();
         }
+        let psbt_weight = tx.weight().to_wu();
         let mut psbt = match Psbt::from_unsigned_tx(tx) {
             Ok(p) => p,
             Err(_) => return "harness-setup-failed psbt".into(),
@@ -149,9 +156,20 @@ impl C08Psbt {
         let mut utxos = vec![];
         for (i, inp) in ins.iter().enumerate() {
             let true_out = prev_txs[i].output[0].clone();
-            let claimed = if inp.claim == 'w' { TxOut { value: true_out.value, script_pubkey: key_script(&keys[i], 'w') } } else { true_out.clone() };
+            let claimed = match inp.claim {
+                'w' => TxOut { value: true_out.value, script_pubkey: key_script(&keys[i], 'w') },
+                'v' => TxOut { value: Amount::from_sat(true_out.value.to_sat() - UNDERSTATE), script_pubkey: true_out.script_pubkey.clone() },
+                _ => true_out.clone(),
+            };
             if inp.pres == 'n' || inp.pres == 'b' {
                 psbt.inputs[i].non_witness_utxo = Some(prev_txs[i].clone());
+            }
+            if inp.pres == 'x' {
+                // a forged previous tx: same shape, but its output is the claimed script (its txid does not match the outpoint)
+                let mut fake = prev_txs[i].clone();
+                fake.output[0] = claimed.clone();
+                fake.lock_time = LockTime::from_consensus(1);
+                psbt.inputs[i].non_witness_utxo = Some(fake);
             }
             if inp.pres == 'u' || inp.pres == 'b' {
                 psbt.inputs[i].witness_utxo = Some(claimed);
@@ -185,6 +203,10 @@ impl C08Psbt {
                 return "decode-error".into();
             }
         };
+        // the decoder must have refused a witness_utxo that disagrees with the supplied previous tx, and a forged previous tx
+        if ins.iter().any(|i| (i.pres == 'b' && (i.claim == 'v' || (i.claim == 'w' && i.ty != 'w'))) || i.pres == 'x') {
+            co.violations.push(Violation { kind: "psbt-utxo-mismatch-accepted".into(), desc: format!("the streamed PSBT decoder accepted inputs presented as {} (b+w/v: witness_utxo differs from the previous tx output; x: previous tx with the wrong txid)", ins.iter().map(|i| format!("{}{}{}", i.ty, i.pres, i.claim)).collect::<Vec<_>>().join(",")), at });
+        }
         let flags = streamed.segwit_flags.clone();
         for (i, inp) in ins.iter().enumerate() {
             if flags.get(i) == Some(&true) && inp.pres == 'u' {
@@ -211,6 +233,19 @@ impl C08Psbt {
             Ok(Ok(signed)) => {
                 let n_sigs = signed.map(|p| p.inputs.iter().filter(|i| i.final_script_witness.is_some()).count()).unwrap_or(0);
                 co.tags.insert("wd:signed".into());
+                if unknown && !approve {
+                    co.violations.push(Violation { kind: "unapproved-destination-signed".into(), desc: format!("SignWithdrawal signed ({} witnesses) although the tx pays an unknown destination and the approver declined", n_sigs), at });
+                }
+                // ---- monitor: the fee really paid (true input values) against the default max feerate; own coins only can
+                // be lost, and only where the signature does not commit to the amount (legacy p2pkh)
+                let own_legacy_understated = ins.iter().any(|i| i.own && i.ty == 'k' && i.claim == 'v' && i.pres == 'u');
+                if !unknown && own_legacy_understated {
+                    let w = psbt_weight as u128 + 110 * ins.len() as u128;
+                    let true_fee = (true_total - chan_amt - change) as u128;
+                    if (true_fee * 1000 + 999) / w > 333_333 {
+                        co.violations.push(Violation { kind: "legacy-input-value-unverified".into(), desc: format!("SignWithdrawal signed a tx that really pays {} sat of fee ({} sat/kw) from an own p2pkh coin whose value was understated in an unverified witness_utxo", true_fee, (true_fee * 1000 + 999) / w), at });
+                    }
+                }
                 // ---- monitor: judged by the TRUE type of the coins
                 let legacy: Vec<usize> = ins.iter().enumerate().filter(|(_, i)| !"wt".contains(i.ty)).map(|(k, _)| k).collect();
                 if fund && !legacy.is_empty() {
@@ -259,6 +294,10 @@ impl Group for C08Psbt {
             c("wd 1 n 0 o:w:n:t,f:w:n:t|wd 1 n 0 o:w:n:t,f:k:n:t|wd 1 n 0 o:w:n:t,f:k:u:w"),
             // not funding a channel: a legacy input is fine
             c("wd 0 n 0 o:w:n:t,f:k:n:t|wd 0 p 1 o:w:n:t|wd 0 n 1 o:w:n:t"),
+            // known finding: an own p2pkh coin presented only through a witness_utxo with an understated value
+            c("wd 0 p 0 o:k:u:v|wd 0 p 0 o:k:n:t|wd 0 p 0 o:w:u:v"),
+            // a forged previous tx (txid mismatch) claiming a p2wpkh output for a legacy coin; both utxo forms disagreeing
+            c("wd 1 n 0 o:w:n:t,f:k:x:w|wd 1 n 0 o:w:n:t,f:k:b:w"),
         ]
     }
     fn gen_case(&self, rng: &mut Rng, _tier: Tier) -> Vec<String> {
@@ -273,8 +312,8 @@ impl Group for C08Psbt {
             for i in 0..n_in {
                 let own = i == 0 || rng.chance(1, 3);
                 let ty = *rng.pick(&['w', 'w', 'w', 't', 'k', 's']);
-                let pres = *rng.pick(&['n', 'n', 'n', 'u', 'u', 'b']);
-                let claim = if pres == 'n' { 't' } else if rng.chance(1, 2) { 'w' } else { 't' };
+                let pres = *rng.pick(&['n', 'n', 'n', 'u', 'u', 'b', 'x']);
+                let claim = if pres == 'n' { 't' } else if pres == 'x' { 'w' } else { *rng.pick(&['w', 'w', 't', 't', 'v']) };
                 ins.push(format!("{}:{}:{}:{}", if own { 'o' } else { 'f' }, ty, pres, claim));
             }
             ops.push(format!("wd {} {} {} {}", if fund { 1 } else { 0 }, if approve { 'p' } else { 'n' }, if unknown { 1 } else { 0 }, ins.join(",")));
